@@ -234,6 +234,26 @@ func c03Check(c *mc.Ctx, hname string, cs *c04Case) {
 			return
 		}
 	}
+	// what a Read returned belongs to the caller: after everything reachable from one result has been
+	// overwritten (bodies incl. spare capacity, header values, URLs, signatures), reading the same bytes
+	// again must still give the written content (no memoised URL / header / response objects shared
+	// between calls).  Sharing inside ONE result (e.g. one *url.URL for all variants of a URL) is not judged.
+	if len(cs.Exs) > 0 {
+		if r, rerr, rpan := c03Read(w1); rerr == nil && rpan == "" {
+			c05Scribble(r)
+			r2, rerr2, rpan2 := c03Read(w1)
+			c.Transitions(2)
+			d := fmt.Sprintf("err=%v panic=%q", rerr2, rpan2)
+			if rerr2 == nil && rpan2 == "" {
+				d, _ = c03Compare(l, content, r2)
+			}
+			if d != "" {
+				c.Outcome("VIOLATION read depends on an earlier result")
+				c.Fail(key+":reread", "reading the same bytes again, after the caller overwrote the bundle the first Read returned, gives different content", cs.Desc, "equal field by field", d)
+				return
+			}
+		}
+	}
 	size := "<64KiB"
 	if len(w1) >= 65536 {
 		size = ">=64KiB"
